@@ -549,6 +549,15 @@ def main():
     lean_ok, lean_out = build_lean("CorgiProps." + pid)
     audit_ok, theorems, declared, problems, files = audit(pid)
     proof_ok = lean_ok and audit_ok
+    if tier == "thorough" and lean_ok:
+        # independent re-check of the compiled property module by the toolchain's `leanchecker`
+        with Lock("lake"):
+            rc, out = sh(["lake", "env", "leanchecker", "CorgiProps." + pid], cwd=LEAN, timeout=3000)
+        if rc != 0:
+            proof_ok = False
+            problems.append("leanchecker rejected CorgiProps.%s: %s" % (pid, out[-800:]))
+        else:
+            notes.append("leanchecker re-checked CorgiProps.%s (rc 0)" % pid)
     if not proof_ok:
         notes.append("proof obligation broken: " + "; ".join(problems)[:1500] + ("" if lean_ok else "\n" + lean_out[-1500:]))
 
